@@ -177,6 +177,23 @@ def _exit_paths(fa, cap=20000):
                 return copy.deepcopy(acc[n.id])
             return n
 
+    # locals that may be changed in place (a method called on them, an item stored, handed to a call): what they hold at
+    # a later test is not what they were assigned
+    mutated = set()
+    for x in A.walk_body(fa.node):
+        if isinstance(x, ast.Call):
+            if isinstance(x.func, ast.Attribute) and isinstance(x.func.value, ast.Name):
+                mutated.add(x.func.value.id)
+            for a_ in list(x.args) + [k.value for k in x.keywords]:
+                if isinstance(a_, ast.Name) and not (isinstance(x.func, ast.Name) and x.func.id in ("len", "bool", "sorted", "list", "tuple", "set", "frozenset", "any", "all", "sum", "min", "max", "isinstance")):
+                    mutated.add(a_.id)
+                if isinstance(a_, ast.Starred) and isinstance(a_.value, ast.Name):
+                    mutated.add(a_.value.id)
+        if isinstance(x, (ast.Subscript, ast.Attribute)) and isinstance(x.ctx, (ast.Store, ast.Del)) and isinstance(x.value, ast.Name):
+            mutated.add(x.value.id)
+        if isinstance(x, ast.AugAssign) and isinstance(x.target, ast.Name):
+            mutated.add(x.target.id)
+
     def effectful(nd):
         a = nd.ast
         if a is None or nd.kind not in ("stmt", "with", "for"):
@@ -218,6 +235,12 @@ def _exit_paths(fa, cap=20000):
             val, dnode, didx = env[nm]
             if isinstance(val, ast.Constant):
                 subs[nm] = val
+            elif _is_empty_container(val) and nm not in mutated:
+                subs[nm] = val  # an empty collection that nothing ever fills
+            elif isinstance(val, (ast.ListComp, ast.SetComp, ast.DictComp)) and nm not in mutated:
+                # the collection computed by that assignment (a value, read symbolically: the same
+                # assignment always expands to the same text, as FA.expand does for a single definition)
+                subs[nm] = fa.expand(val, dnode)
             elif not any(isinstance(x, (ast.Call, ast.Lambda, ast.ListComp, ast.SetComp, ast.DictComp, ast.GeneratorExp, ast.Await, ast.NamedExpr)) for x in ast.walk(val)) \
                     and not any(effectful(cfg.node(i)) for i in path[didx + 1:]):
                 subs[nm] = fa.expand(val, dnode)
@@ -232,6 +255,32 @@ def _exit_paths(fa, cap=20000):
                 truth = same if isinstance(t2.ops[0], (ast.Is, ast.Eq)) else not same
                 return [] if truth == positive else None
         return [fa._literal(t2, node_id, positive)]
+
+    def alts(t, node_id, positive, env, path):
+        """The ways test `t` can come out with the given polarity, each a list of literals.  A conjunction taken true is
+        one way; a disjunction taken true (a conjunction taken false) is decided by the first operand that settles it,
+        the earlier ones having come out the other way (short circuit) - one way per operand."""
+        if isinstance(t, ast.UnaryOp) and isinstance(t.op, ast.Not):
+            return alts(t.operand, node_id, not positive, env, path)
+        if isinstance(t, ast.BoolOp):
+            if (isinstance(t.op, ast.And) and positive) or (isinstance(t.op, ast.Or) and not positive):
+                res = [[]]
+                for v in t.values:
+                    va = alts(v, node_id, positive, env, path)
+                    res = [a + b for a in res for b in va]
+                return res
+            res, prefix = [], [[]]
+            for v in t.values:
+                res += [a + b for a in prefix for b in alts(v, node_id, positive, env, path)]
+                prefix = [a + b for a in prefix for b in alts(v, node_id, not positive, env, path)]
+            return res
+        if isinstance(t, ast.Name) and t.id in env:
+            val, dnode, didx = env[t.id]
+            if isinstance(val, (ast.BoolOp, ast.UnaryOp)) and not any(isinstance(x, ast.Call) for x in ast.walk(val)) \
+                    and not any(effectful(cfg.node(i)) for i in path[didx + 1:]):
+                return alts(val, dnode, positive, {k: v for k, v in env.items() if v[2] < didx}, path[:didx])
+        r = atoms(t, node_id, positive, env, path)
+        return [] if r is None else [r]
 
     def dfs(n, path, lits, env, twice):
         if count[0] > cap:
@@ -264,22 +313,28 @@ def _exit_paths(fa, cap=20000):
                 d_head = dn.kind == "for" or (dn.kind == "test" and isinstance(fa.pm.get(dn.ast), ast.While) and fa.pm.get(dn.ast).test is dn.ast)
                 if not d_head or d in twice:
                     continue
-            add = []
+            ways = [[]]
             if nd.kind == "test" and l in ("T", "F") and not (is_loop_head and nd.kind == "test") and id(nd.ast) not in summarised:
-                add = atoms(nd.ast, n, l == "T", env, path)
-                if add is None:
+                ways = alts(nd.ast, n, l == "T", env, path)
+            for add in ways:
+                new = dict(lits)
+                if any(new.setdefault(a[0], a[1]) != a[1] for a in add):
                     continue
-            if any(lits.get(a[0], a[1]) != a[1] for a in add):
-                continue
-            new = dict(lits)
-            for a in add:
-                new[a[0]] = a[1]
-            path.append(d)
-            dfs(d, path, new, env, twice | {d} if revisit else twice)
-            path.pop()
+                path.append(d)
+                dfs(d, path, new, env, twice | {d} if revisit else twice)
+                path.pop()
 
     dfs(cfg.entry, [cfg.entry], {}, {}, frozenset())
     return None if count[0] > cap else out
+
+
+def _is_empty_container(e):
+    """`[]`, `()`, `{}`, `list()`, `set()`, `tuple()`, `dict()`, `frozenset()`."""
+    if isinstance(e, (ast.List, ast.Tuple, ast.Set)) and not e.elts:
+        return True
+    if isinstance(e, ast.Dict) and not e.keys:
+        return True
+    return isinstance(e, ast.Call) and isinstance(e.func, ast.Name) and e.func.id in ("list", "set", "tuple", "dict", "frozenset") and not e.args and not e.keywords
 
 
 def _parse_lit(text):
@@ -479,6 +534,18 @@ def _digest_fed_and_returned(fa, pred):
                         if r.value is not None and fa.nodes(r) and id(dg) in _flow(fa, r.value):
                             return True
     return False
+
+
+def fail_closed(ck):
+    """A rule group that could not run (vanished anchor, idiom not understood) must not pass silently behind the
+    property's recorded known findings: unless some NEW violation is being reported, the run is an analysis error."""
+    from ..report import split_known
+    if ck.analysis_errors and not split_known(ck)[1]:
+        # the entry point fails closed only when no obligation stands violated, and the recorded findings count as
+        # such: take them out of this (broken) run, so that it ends as ANALYSIS-ERROR instead of exit 0
+        for o in ck.obs:
+            if o.verdict == "violation":
+                o.verdict = "note"
 
 
 # --------------------------------------------------------------------------------- C01.R1
@@ -1040,13 +1107,47 @@ def check_enforcement(ck, R):
     ck.rule(R, "dependency enforcement dominates dispatch: call and call_batch validate the caller's declared closure "
                "before dispatching; the validation can only be skipped without a calling frame or when the caller "
                "declares its version", 5)
-    for name in ("call", "call_batch"):
-        fa = FA(ck, MF + "." + name)
-        val = fa.nodes_all([c for c in fa.calls("_validate_dependency") if A.norm(A.call_recv(c)) == "self"])
-        sup = [c for c in fa.calls(name) if isinstance(A.call_recv(c), ast.Call) and A.call_attr(A.call_recv(c)) == "super"]
-        ok = bool(val) and bool(sup) and all(fa.cfg.must_pass(val, i) for i in fa.nodes_all(sup))
-        ck.ob(R, fa.key(None, "validate-before-dispatch"), ok, "%s validates the dependency before dispatching" % name if ok else
-              "%s can dispatch without _validate_dependency(): an undeclared dependency is executed and its changes never invalidate the caller" % name, fa.where())
+    # The two entry points are resolved the way the interpreter resolves them on a MementoFunction (its own method, else
+    # the nearest base class's), and followed through `super().<entry>(...)` / `self.<entry>(...)`: wherever the call is
+    # handed to the runner machinery (the point from which a STORED result can come back), the validation has
+    # been passed on every path - in that function or in one of the overrides that led to it.
+    mf_cls = ck.repo.cls(MF)
+    mro = ck.repo.mro(mf_cls)
+    ENTRIES = ("call", "call_batch")
+    RUN = ("memento_run_batch", "memento_run_local", "batch_run")
+    for name in ENTRIES:
+        seen, bare, n_run = set(), [], [0]
+
+        def walk(start, meth):
+            idx = next((i_ for i_ in range(start, len(mro)) if meth in mro[i_].methods), None)
+            if idx is None or mro[idx].methods[meth].qual in seen:
+                return
+            seen.add(mro[idx].methods[meth].qual)
+            fx = FA(ck, mro[idx].methods[meth])
+            val = fx.nodes_all([c for c in fx.calls("_validate_dependency") if A.norm(A.call_recv(c)) == "self"])
+            for c in fx.calls():
+                rc, nm = A.call_recv(c), A.call_attr(c)
+                via_super = nm in ENTRIES and isinstance(rc, ast.Call) and A.call_attr(rc) == "super"
+                via_self = nm in ENTRIES and isinstance(rc, ast.Name) and rc.id == "self"
+                if not (via_super or via_self or nm in RUN) or not fx.nodes(c):
+                    continue
+                if val and all(fx.cfg.must_pass(val, i_) for i_ in fx.nodes(c)):
+                    n_run[0] += 1
+                    continue
+                n_run[0] += nm in RUN
+                if nm in RUN:
+                    bare.append((fx, c))
+                else:
+                    walk(idx + 1 if via_super else 0, nm)
+
+        walk(0, name)
+        entry = ck.repo.find_method(mf_cls, name)
+        ck.need(entry is not None and n_run[0] > 0, "MementoFunction.%s: no hand-over to the runner (memento_run_batch) found along its super() chain" % name)
+        ok = not bare
+        ck.ob(R, "%s.%s::validate-before-dispatch" % (MF, name), ok, "%s validates the dependency before dispatching" % name if ok else
+              "MementoFunction.%s (%s) reaches `%s` in %s without having passed self._validate_dependency(): a callee whose result is already in the store is "
+              "answered to a caller that never declared it, the caller is memoized under a version that does not cover the callee, and later edits of "
+              "the callee never invalidate the caller" % (name, entry.qual, A.short(bare[0][1], 40), bare[0][0].qual) if bare else "", bare[0][0].where(bare[0][1]) if bare else A.loc(entry, entry.node))
     v = FA(ck, MF + "._validate_dependency")
     # everything below is decided on EXPANSIONS (locals replaced by what they were assigned), so
     # the names of the temporaries do not matter
@@ -1420,17 +1521,22 @@ def check_update_protocol(ck, R):
                 return ("same-version", None)
             # emptiness of the changed-rule collection: len(C) > 0 / != 0 / >= 1 / == 0 / < 1, either operand order
             for (x_, y_, flip) in ((e.left, e.comparators[0], False), (e.comparators[0], e.left, True)):
-                if isinstance(x_, ast.Call) and A.norm(x_.func) == "len" and len(x_.args) == 1 and changed_coll(x_.args[0]):
+                if isinstance(x_, ast.Call) and A.norm(x_.func) == "len" and len(x_.args) == 1 and (changed_coll(x_.args[0]) or _is_empty_container(x_.args[0])):
                     op = type(e.ops[0]).__name__
                     if flip:
                         op = {"Gt": "Lt", "Lt": "Gt", "GtE": "LtE", "LtE": "GtE"}.get(op, op)
                     k_ = A.norm(y_)
-                    nonempty = {("Gt", "0"): True, ("GtE", "1"): True, ("Eq", "0"): False, ("Lt", "1"): False, ("LtE", "0"): False}.get((op, k_))
-                    return ("changed", (changed_coll(x_.args[0]), nonempty))
+                    nonempty = {("Gt", "0"): True, ("GtE", "1"): True, ("NotEq", "0"): True, ("Eq", "0"): False, ("Lt", "1"): False, ("LtE", "0"): False}.get((op, k_))
+                    if not changed_coll(x_.args[0]):
+                        # the length of a collection that is empty on this path: the test is decided
+                        return ("const", not nonempty) if nonempty is not None else (None, None)
+                    return ("changed", (changed_coll(x_.args[0]), nonempty, A.norm_alpha(x_.args[0])))
         if changed_coll(e) is not None:
-            return ("changed", (changed_coll(e), True))
+            return ("changed", (changed_coll(e), True, A.norm_alpha(e)))
+        if _is_empty_container(e):
+            return ("const", False)
         if "did_change()" in text:
-            return ("changed", ("partial", None))
+            return ("changed", ("partial", None, text))
         return (None, None)
 
     roles = {}
@@ -1438,6 +1544,30 @@ def check_update_protocol(ck, R):
         for t in lits:
             if t not in roles:
                 roles[t] = classify(t)
+    # one question, one literal: "is some rule of <collection> changed" however the emptiness test is spelt (len(C) > 0,
+    # len(C) == 0, != 0, C itself ...), so that two tests of the same collection on one path agree; tests decided by an
+    # empty literal drop out (and make the paths that contradict them infeasible)
+    spelt = {}
+    canon_paths = []
+    for (pth, lits) in paths:
+        nl, feasible = {}, True
+        for t, pol in lits.items():
+            ro, det = roles[t]
+            if ro == "const":
+                feasible = feasible and pol == det
+                continue
+            if ro == "changed" and det[1] is not None:
+                key = "<some rule changed: %s>" % det[2]
+                spelt.setdefault(key, []).append(t)
+                roles.setdefault(key, ("changed", (det[0], True, det[2])))
+                t, pol = key, (pol == det[1])
+            if nl.get(t, pol) != pol:
+                feasible = False
+            nl[t] = pol
+        if feasible:
+            canon_paths.append((pth, nl))
+    paths = canon_paths
+    roles = {t: r_ for t, r_ in roles.items() if any(t in lits for (_p, lits) in paths)}
     by_role = {}
     for t, (ro, det) in roles.items():
         if ro is not None:
@@ -1455,7 +1585,7 @@ def check_update_protocol(ck, R):
         for n_ in cfg.nodes:
             if n_.kind == "test" and n_.id in cfg.reachable_nodes():
                 for (txt, _pol) in fa._atoms(n_.ast, n_.id, True) + fa._atoms(n_.ast, n_.id, False):
-                    if txt == text:
+                    if txt == text or txt in spelt.get(text, ()):
                         return n_.ast
         return None
 
@@ -1471,7 +1601,7 @@ def check_update_protocol(ck, R):
         for n_ in cfg.nodes:
             if ct is None and n_.kind == "test" and any(isinstance(x, ast.Name) and x.id in acc_ for x in ast.walk(n_.ast)):
                 ct = n_.ast
-    chg_kind, chg_nonempty = roles[T_CHG][1]
+    chg_kind, chg_nonempty = roles[T_CHG][1][0], roles[T_CHG][1][1]
     okct = chg_nonempty is not None
     ck.ob(R, fa.key(ct, "changed-test"), okct, "any changed rule counts" if okct else "the changed-rules test is not 'non-empty'", fa.where(ct))
 
@@ -1510,13 +1640,18 @@ def check_update_protocol(ck, R):
     # (b) changed => bump and recompute
     incs = set(fa.nodes_all(fa.calls("increment_global_fn_generation")))
     ok_b = bool(incs) and any(changed(lits) is True for (_p, lits) in paths)
+    late = False
     for (pth, lits) in paths:
         if changed(lits) is True:
             i_inc = first(pth, incs)
             i_rec = first(pth, recs)
             if i_inc is None or i_rec is None or i_rec < i_inc:
                 ok_b = False
-    ck.ob(R, fa.key(ct, "changed-bumps-and-recomputes"), ok_b, "a changed rule bumps the generation and leads to recomputation" if ok_b else
+                late = late or (i_inc is not None and i_rec is not None)
+    ck.ob(R, fa.key(ct, "changed-bumps-and-recomputes"), ok_b, "a changed rule bumps the generation, then recomputes" if ok_b else
+          "after a changed rule the updater recomputes BEFORE it bumps the generation (or bumps it only on some of those paths): while the recomputation "
+          "is under way (the rule list already replaced by fresh rules, the calculated version and the reference not yet) every other caller still "
+          "finds an entry of the current generation and no changed rule, keeps the old version and is served the result of the earlier edition" if late else
           "after a changed rule the updater can return without bumping the generation and recomputing", fa.where(ct))
     # (c) every path through recompute stores a current-generation cache entry
     def nt_fields(ctor):
